@@ -32,22 +32,24 @@ type KnownFinding struct {
 }
 
 type Report struct {
-	Property    string
-	Tier        string
-	Level       string
-	Start       time.Time
-	Obs         []Obligation
-	Only        map[string]bool // when set, only these rules are recorded (a rule family shared between properties)
-	seen        map[string]int
-	Analysed    map[string]int
-	minCount    map[string]int
-	ruleDoc     map[string]string
-	Explanation string
-	Assumptions []string
-	Exhaustive  bool
-	Extra       map[string]any
-	Known       []KnownFinding
-	fatal       []string
+	Property string
+	Tier     string
+	Level    string
+	Start    time.Time
+	Obs      []Obligation
+	Only     map[string]bool // when set, only these rules are recorded (a rule family shared between properties)
+	// OnlyConstruct: when set (together with Only), only obligations whose construct contains it are recorded
+	OnlyConstruct string
+	seen          map[string]int
+	Analysed      map[string]int
+	minCount      map[string]int
+	ruleDoc       map[string]string
+	Explanation   string
+	Assumptions   []string
+	Exhaustive    bool
+	Extra         map[string]any
+	Known         []KnownFinding
+	fatal         []string
 }
 
 func NewReport(prop, tier string) *Report {
@@ -85,6 +87,9 @@ func (r *Report) Rule(id, doc string, min int) {
 	if r.Only != nil && !r.Only[id] {
 		return
 	}
+	if r.OnlyConstruct != "" && min > 1 {
+		min = 1 // one kind of obligation of the rule is taken: its own instances are what must not vanish
+	}
 	r.ruleDoc[id] = doc
 	if min > r.minCount[id] {
 		r.minCount[id] = min
@@ -96,6 +101,9 @@ func (r *Report) Rule(id, doc string, min int) {
 
 func (r *Report) add(o Obligation) {
 	if r.Only != nil && !r.Only[o.Rule] && !strings.HasPrefix(o.Detail, "UNDECIDED") {
+		return
+	}
+	if r.OnlyConstruct != "" && !strings.Contains(o.Construct, r.OnlyConstruct) && !strings.HasPrefix(o.Detail, "UNDECIDED") {
 		return
 	}
 	r.seen[o.Rule]++
